@@ -136,6 +136,12 @@ func init() {
 				for _, form := range []struct{ key, fn string }{{"p", "time:parse-rfc3339"}, {"pn", "time:parse-rfc3339-nano"}} {
 					t := txEval(env, "(set 'tx-t ("+form.fn+" tx-s))")
 					p := J{"ok": t.Type != lisp.LError}
+					// the same string again, at once: whatever the first answer was, it is the answer
+					t2 := txEval(env, "("+form.fn+" tx-s)")
+					p["ok2"] = t2.Type != lisp.LError
+					if t.Type != lisp.LError && t2.Type != lisp.LError {
+						p["same2"] = txBool(txEval(env, "(time:time= tx-t ("+form.fn+" tx-s))"))
+					}
 					if t.Type == lisp.LError {
 						p["msg"] = safeStr(t)
 					} else {
